@@ -1455,7 +1455,9 @@ def concat_collocations(collocations):
     for obj in collocations:
         for group, data in get_xarray_groups(obj).items():
             if group == "Collocations":
-                # Correct the indices:
+                # Correct the indices (on a copy: `data` shares its memory
+                # with the dataset of the caller):
+                data = data.copy(deep=True)
                 data["Collocations/pairs"][0, :] += primary_size
                 data["Collocations/pairs"][1, :] += secondary_size
                 data = data.drop_vars("Collocations/group")
